@@ -129,10 +129,35 @@ func resultForms(c *Ctx, rule, fnName string, patterns ...string) int {
 		if _, isC := v.ConstVal(); isC {
 			continue
 		}
-		ok := false
-		for i, pt := range patterns {
-			if vecMatches(v, pt) {
-				ok, used[i] = true, true
+		// the predicate may delegate to a shared helper (both IsPartitionHead entry points calling one
+		// function): the forms are then the helper's non-constant results
+		cands := []bits.Vec{v}
+		opaque := false
+		for _, b := range v {
+			if b.K == bits.Top || strings.HasPrefix(b.Src, "call:") {
+				opaque = true
+			}
+		}
+		if opaque && len(rs.Ret.Results) > 0 {
+			if hv := helperResultVecs(p, rs.Ret.Results[0]); len(hv) > 0 {
+				cands = nil
+				for _, x := range hv {
+					if _, isC := x.ConstVal(); !isC {
+						cands = append(cands, x)
+					}
+				}
+			}
+		}
+		ok := len(cands) > 0
+		for _, cv := range cands {
+			one := false
+			for i, pt := range patterns {
+				if vecMatches(cv, pt) {
+					one, used[i] = true, true
+				}
+			}
+			if !one {
+				ok = false
 			}
 		}
 		n++
